@@ -302,7 +302,7 @@ OTHER_STMT = ['oth = 1  # other tree', '# lead other\nother_call(a,  b)  # trail
               'for oi in oj:\n    # inner\n    use(oi)\n', 'def ofn(a, b = 2):  # sig\n    return a  # r\n',
               'ol = [1,  # one\n      2]\n', 'with octx as ov:\n    ov()  # call\n']
 OTHER_EXPR = ['oname', '(o1 +  o2)', 'ofunc(oa,  ob)', '[oa,  # c\n ob]', '"ostr"', '17', 'o.attr', 'o[idx]', '{ok:  ov}']
-SKIP_PRIM = {'kind', 'type_comment', 'level', 'is_async', 'simple', 'conversion', 'lineno', 'str', 'tag'}
+SKIP_PRIM = {'kind', 'type_comment', 'simple', 'conversion', 'lineno', 'str', 'tag'}
 NO_LIST_OPS = {('Compare', 'ops'), ('Compare', 'comparators'), ('arguments', 'posonlyargs'), ('arguments', 'args'),
                ('arguments', 'kwonlyargs'), ('arguments', 'kw_defaults'), ('arguments', 'defaults'),
                ('MatchMapping', 'keys'), ('MatchMapping', 'patterns'), ('MatchClass', 'kwd_attrs'),
@@ -396,8 +396,17 @@ class Mutator:
                 op = rng.choice(ops)
                 n = len(val)
                 pc = (lambda i: 'only' if n == 1 else 'first' if i == 0 else 'last' if i == n - 1 else 'mid')
+                if op == 'replace' and n and (kind, field) == ('Dict', 'keys') and rng.random() < 0.3:
+                    i = rng.randrange(n)
+                    if val[i] is None:
+                        continue
+                    val[i] = None      # `k: v` becomes `**v`
+                    s.mutated('delete', f'{where}.opt', [s.site(owner, field, 'slot', i)], f'Dict.keys[{i}] = None')
+                    return True
                 if op == 'replace' and n:
                     i = rng.randrange(n)
+                    if val[i] is None:
+                        continue
                     got = self.source(typ, owner, val[i])
                     if not got:
                         continue
@@ -501,7 +510,8 @@ class Mutator:
                     continue
                 setattr(owner, field, new)
                 eqv = typ == 'constant' and new == val and type(new) is not type(val)   # e.g. True -> 1, 1 -> 1.0
-                s.mutated('setprim_eq' if eqv else 'setprim', f'prim.{kind}.{field}', [s.site(owner, field, 'self')], f'{kind}.{field} = {new!r}')
+                dotted = '/dotted' if kind == 'ImportFrom' and field == 'level' and '.' in (owner.module or '') else ''
+                s.mutated('setprim_eq' if eqv else 'setprim', f'prim.{kind}.{field}{dotted}', [s.site(owner, field, 'self')], f'{kind}.{field} = {new!r}')
                 return True
         return False
 
@@ -527,4 +537,9 @@ class Mutator:
             if isinstance(val, bytes):
                 return val + b'z'
             return NotImplemented
+        if typ == 'int' and isinstance(val, int):
+            if field == 'is_async':
+                return 1 - val
+            if field == 'level':
+                return val + 1 if (val == 0 or getattr(owner, 'module', None) is None or rng.random() < 0.5) else val - 1
         return NotImplemented
